@@ -483,6 +483,10 @@ func runStreams(cfg *Config) *Result {
 			stStallProbe(res)
 			return res
 		}
+		if err == nil && strings.HasPrefix(rp.Case, "refused ") {
+			stRefusedDestProbe(res)
+			return res
+		}
 		if err == nil {
 			err = json.Unmarshal([]byte(rp.Case), &c)
 		}
@@ -623,6 +627,7 @@ func runStreams(cfg *Config) *Result {
 	if cfg.Replay == "" {
 		stEndlessProbe(res)
 		stStallProbe(res)
+		stRefusedDestProbe(res)
 	}
 	return res
 }
